@@ -354,6 +354,26 @@ subroutine lv_aa(a, b)
   end associate
 end subroutine lv_aa
 """
+_PM_T = """
+module lv_pt
+  implicit none
+  type lv_po
+    real(kind=8) :: va(2)
+  end type lv_po
+end module lv_pt
+"""
+_PM_SRC = """
+module lv_pm
+  use lv_pt, only: lv_po
+  implicit none
+  type(lv_po) :: lv
+contains
+  subroutine lv_pk(a)
+    real(kind=8), intent(inout) :: a
+    a = lv%va(1)
+  end subroutine lv_pk
+end module lv_pm
+"""
 _S_SRC = """
 module lv_s
   implicit none
@@ -471,8 +491,15 @@ def known_defects():
         sm = Sourcefile.from_source(_S_SRC)['lv_s']
         return pickle.loads(pickle.dumps(sm)) != sm
 
+    def p_member_cache():
+        # a module procedure uses a component of a module variable whose type is imported: the routine is unpickled and
+        # rescoped before it is re-attached to the module and caches a (deferred) entry 'lv%va' in its own table
+        m = Sourcefile.from_source(_PM_SRC)['lv_pm']
+        p = pickle.loads(pickle.dumps(m))
+        return set(dict.keys(p['lv_pk'].symbol_attrs)) != set(dict.keys(m['lv_pk'].symbol_attrs))
+
     d = {}
-    for key, fn in (('dtsym-not-rescoped', p_dtsym), ('print-not-rescoped', p_print), ('cast-unpicklable', p_cast),
+    for key, fn in (('parentless-rescope-caches-member-entries', p_member_cache),('dtsym-not-rescoped', p_dtsym), ('print-not-rescoped', p_print), ('cast-unpicklable', p_cast),
                     ('member-parent-lost', p_member), ('module-repickle-raises', p_repickle), ('typedef-link-to-source', p_typedef),
                     ('procedure-link-dropped', p_proclink), ('unpickle-rescoping-not-identity', p_rescoping),
                     ('clone-keeps-import-links-into-source', p_importlink),
